@@ -357,6 +357,9 @@ func (fr *Frame) assumeTyped(t types.Type, v Term) {
 		if _, _, ok := intRange(t); ok {
 			vc.assume(inRange(t, v))
 		}
+	case SStr:
+		// strings that exist in memory are shorter than the address space
+		vc.assume(Term{fmt.Sprintf("(<= (s_len %s) 4611686018427387904)", v.S), SBool})
 	case SSlice:
 		vc.assume(Term{fmt.Sprintf("(and (<= 0 (slen %s)) (<= (slen %s) (scap %s)) (<= 0 (soff %s)) (<= (scap %s) 4611686018427387904) (=> (= (sarr %s) 0) (= (scap %s) 0)))", v.S, v.S, v.S, v.S, v.S, v.S, v.S), SBool})
 	}
@@ -369,7 +372,7 @@ func (fr *Frame) assumeTyped(t types.Type, v Term) {
 				if _, _, ok := intRange(ft); !ok {
 					continue
 				}
-			} else if fs != SSlice && !fr.te().isStructVal(ft) {
+			} else if fs != SSlice && fs != SStr && !fr.te().isStructVal(ft) {
 				continue
 			}
 			fr.assumeTyped(ft, Term{app(si.fields[i], v.S), fs})
